@@ -31,6 +31,19 @@ func GenSeq(t *rapid.T) *SeqCase {
 	for i := 0; i < nh; i++ {
 		c.Handlers = append(c.Handlers, genH(t, 3))
 	}
+	// without asynchronous handlers the outcome of a cancellation in the
+	// middle of a dispatch is determined: let some plain handlers cancel
+	anyAsync := false
+	for _, h := range c.Handlers {
+		anyAsync = anyAsync || h.Async
+	}
+	if !anyAsync {
+		for i := range c.Handlers {
+			if !c.Handlers[i].Once && rapid.IntRange(0, 2).Draw(t, "cancels") == 0 {
+				c.Handlers[i].Cancels = true
+			}
+		}
+	}
 	// a third of the histories let Once handlers arm a successor while they run
 	if rapid.IntRange(0, 2).Draw(t, "arming") == 0 {
 		for i := range c.Handlers {
